@@ -119,6 +119,9 @@ def src_class(src) -> str:
 def mutate(s, mut):
     op = mut[0]
     n = len(s)
+    if n == 0 and op not in ('append', 'prepend', 'iadd', 'clear'):
+        s.append('0b1')             # nothing to change in place in an empty object: grow it instead
+        return
     if op == 'append':
         s.append('0b' + mut[1])
     elif op == 'prepend':
@@ -530,12 +533,18 @@ def gen_src(rng, L, allow_file=True, p_file=0.15, cls=None):
     pos = None
     if cls in util.STREAMS:
         pos = rng.choice([None, 0, 1, L, L // 2, max(L - 1, 0), rng.randint(0, L)])
-    if allow_file and L >= 1 and rng.random() < p_file:
+    if allow_file and rng.random() < p_file:
         nbytes = (L + 7) // 8 + rng.choice([0, 0, 1, 3])
+        if L == 0:
+            nbytes = rng.choice([1, 3])        # an empty window over a file that is not empty
         raw = bytes(rng.getrandbits(8) for _ in range(nbytes))
         src = {'via': 'file', 'cls': cls, 'hex': raw.hex(), 'pos': pos}
         r = rng.random()
-        if r < 0.45:
+        if L == 0:
+            src['length'] = 0
+            if r < 0.4:
+                src['offset'] = rng.choice([0, 3, 8])
+        elif r < 0.45:
             src['length'] = L
         elif r < 0.6:
             off = rng.choice([0, 1, 3, 8, 9])
@@ -641,6 +650,10 @@ def directed(ctx):
         for mut in (['invert', 0], ['append', '1'], ['del', 0, 8], ['overwrite', '1111', 4], None):
             cases.append({'kind': 'text', 'lsb0': False,
                           'src': {'via': 'file', 'cls': cls, 'hex': filehex, 'pos': 5 if cls == 'BitStream' else None, 'mut': mut}})
+    # an empty window over a file that is not empty (repr must say length=0, not fall back to the whole file)
+    for cls in util.CLASS_NAMES:
+        for kw in ({'length': 0}, {'length': 0, 'offset': 0}, {'length': 0, 'offset': 8}, {'length': 0, 'handle': True}):
+            cases.append({'kind': 'text', 'lsb0': False, 'src': dict({'via': 'file', 'cls': cls, 'hex': filehex, 'pos': None}, **kw)})
     for cls in util.CLASS_NAMES:
         for kw in ({}, {'length': 37}, {'length': 40}, {'offset': 8}, {'offset': 3, 'length': 33}, {'handle': True}):
             cases.append({'kind': 'text', 'lsb0': False, 'src': dict({'via': 'file', 'cls': cls, 'hex': filehex, 'pos': 7}, **kw)})
